@@ -520,6 +520,7 @@ func c19Explore(c *core.Ctx, cfg c19Cfg, race bool, only []int, onFail func(cs c
 	vs.Global = poolctl.Sched{}                    // pools (the recycled shared buffer) are deterministic
 	defer func() { va.Hook = nil; vs.Global = nil }()
 	start := time.Now()
+	baseGoroutines := runtime.NumGoroutine()
 	var h schedx.Harness = &c19H{cfg: cfg, t: typeByName(cfg.T)}
 	if cfg.Mode != "" {
 		h = &c19InstH{cfg: cfg, s: typeByName(cfg.Src), d: typeByName(cfg.Dst)}
@@ -583,6 +584,15 @@ func c19Explore(c *core.Ctx, cfg c19Cfg, race bool, only []int, onFail func(cs c
 	}
 	if err := e.Explore(); err != nil {
 		c.InternalError("C19 %+v: %v", cfg, err)
+	}
+	if race && runtime.NumGoroutine() > baseGoroutines {
+		time.Sleep(30 * time.Millisecond)
+		runtime.Gosched()
+		if n := core.RaceErrors(); n > raceBefore {
+			raceBefore = n
+			outcomes["shared/data-race"]++
+			onFail(c19Case{Cfg: cfg, Choices: nil, Race: true}, []F{core.Failf("shared/data-race", "%+v: the race detector reported a data race involving a goroutine that outlived the explored executions (started by the library itself)", cfg)})
+		}
 	}
 	rep = map[string]any{"config": fmt.Sprintf("%+v", cfg), "race_monitor": race, "executions": e.Executions, "scheduling_choices": e.Transitions,
 		"distinct_states": len(e.States), "pruned_at_visited_state": e.Pruned, "max_points": e.MaxPoints, "outcomes": outcomes, "completed": !e.Capped, "wall_s": time.Since(start).Seconds(), "sample_schedule": sample}
